@@ -140,7 +140,7 @@ def bump (s : Step) (k : Nat) (st : CaState) : CaState :=
   match s with
   | .caValidator j => if j = k then { st with nValid := st.nValid + 1 } else st
   | .caDefault j => if j = k then { st with hasDefault := true } else st
-  | .defDeco .. | .defMk .. | .valAppend | .convAppend | .hookAppend | .metaSet | .validatorsOff | .validatorsOn => st
+  | .defDeco .. | .defMk .. | .valAppend | .convAppend | .hookAppend | .metaSet | .validatorsOff | .validatorsOn | .use _ => st
 
 theorem caExpected_cons (s : Step) (rest : List Step) (k : Nat) (st : CaState) :
     caExpected (s :: rest) k st = caExpected rest k (bump s k st) := by
@@ -383,7 +383,7 @@ def envVal : Step → Bool
   | _ => true
 
 theorem envRun_last (steps : List Step) :
-    ∀ r, envRun r steps = ((steps.filter (·.isEnv)).getLast?.map envVal).getD r := by
+    ∀ r, envRun r steps = ((steps.filter (·.isSwitch)).getLast?.map envVal).getD r := by
   induction steps with
   | nil => intro r; rfl
   | cons s rest ih =>
@@ -392,18 +392,18 @@ theorem envRun_last (steps : List Step) :
     case validatorsOff =>
       rw [List.filter_cons_of_pos (by rfl), List.getLast?_cons]
       simp only [envRun, ih]
-      cases (rest.filter (·.isEnv)).getLast? <;> simp [envVal]
+      cases (rest.filter (·.isSwitch)).getLast? <;> simp [envVal]
     case validatorsOn =>
       rw [List.filter_cons_of_pos (by rfl), List.getLast?_cons]
       simp only [envRun, ih]
-      cases (rest.filter (·.isEnv)).getLast? <;> simp [envVal]
+      cases (rest.filter (·.isSwitch)).getLast? <;> simp [envVal]
     all_goals
-      rw [List.filter_cons_of_neg (by simp [Step.isEnv])]
+      rw [List.filter_cons_of_neg (by simp [Step.isSwitch])]
       simp only [envRun, ih]
 
 theorem envRun_expected (steps : List Step) : envRun true steps = envExpected steps := by
   rw [envRun_last, envExpected]
-  cases h : (steps.filter (·.isEnv)).getLast? with
+  cases h : (steps.filter (·.isSwitch)).getLast? with
   | none => rfl
   | some s => cases s <;> rfl
 
